@@ -244,8 +244,10 @@ class StubsStringGenerator:
 
             if constructor_type_vars:
                 for constructor_type_var in constructor_type_vars:
-                    if constructor_type_var.name not in self.class_generics:
-                        self.class_generics.append(constructor_type_var.name)
+                    type_var_name = _convert_name_to_convention(constructor_type_var.name, self.naming_convention)
+                    type_var_name = _replace_if_safeds_keyword(type_var_name)
+                    if type_var_name not in self.class_generics:
+                        self.class_generics.append(type_var_name)
 
             if self.class_generics:
                 variance_info = f"<{', '.join(self.class_generics)}>"
